@@ -129,6 +129,17 @@ class Lab:
                     if j != i and rng.random() < 0.6:
                         segs[j] = "*"
                 return "/".join(segs), {"ops": ["separator_ambiguity"]}
+        if self.model.alias and self.full and rng.random() < 0.06:
+            # an alias as last segment of the search STRING, the deeper level given by the query ('x/maya?task=model'):
+            # the alias expands (C07) although the Sid built from string + query does not end in it
+            members = {m: a for a, ms in self.model.alias.items() for m in ms}
+            cand = [(e, i) for e in self.full for i, v in enumerate(e.split("/")) if v in members and 2 <= i < len(e.split("/")) - 1]
+            if cand:
+                e, i = rng.choice(cand)
+                segs = e.split("/")
+                t = self.model.natural(e)
+                if t is not None:
+                    return "/".join(segs[:i] + [members[segs[i]]]) + "?%s=%s" % (t.keys[i + 1], segs[i + 1]), {"ops": ["alias_before_query"]}
         if from_entity and self.full and rng.random() < 0.85:
             base = rng.choice(self.full)
             t = self.model.natural(base)
